@@ -209,4 +209,39 @@ theorem sum_factor3 (d f : Idx) (H : Nat → Nat → Nat → V) :
 
 end main
 
+/-! ### the time-reversal sign in the image of a reduced k-vector: `k ↦ iTR · iInv · (k M)` -/
+
+/-- the rule WITHOUT the sign of time reversal (the operation is treated as if it did not contain TR) -/
+def dropTR (s : Sym) : Sym := { s with tr := false }
+
+def negV (v : V3) : V3 := ⟨-v.x, -v.y, -v.z⟩
+
+theorem dropTR_apply (s : Sym) (k : V3) :
+    (dropTR s).apply k = if s.tr = true then negV (s.apply k) else s.apply k := by
+  unfold dropTR Sym.apply Sym.sign negV
+  cases s.tr <;> cases s.inv <;> simp
+
+/-- if the group contains the inversion (every operation has a partner with the same TR flag acting as its negative),
+    the set of images of any k is the same with and without the TR sign -/
+theorem images_same_with_inversion (syms : List Sym)
+    (hinv : ∀ s ∈ syms, ∃ t ∈ syms, t.tr = s.tr ∧ ∀ k : V3, t.apply k = negV (s.apply k)) (k v : V3) :
+    (∃ s ∈ syms, v = (dropTR s).apply k) ↔ (∃ s ∈ syms, v = s.apply k) := by
+  have hnn : ∀ w : V3, negV (negV w) = w := by intro w; unfold negV; simp
+  constructor
+  · rintro ⟨s, hs, rfl⟩
+    rw [dropTR_apply]
+    cases h : s.tr with
+    | false => exact ⟨s, hs, by simp⟩
+    | true =>
+      obtain ⟨t, ht, _, hneg⟩ := hinv s hs
+      exact ⟨t, ht, by simp [hneg k]⟩
+  · rintro ⟨s, hs, rfl⟩
+    cases h : s.tr with
+    | false => exact ⟨s, hs, by rw [dropTR_apply, h]; simp⟩
+    | true =>
+      obtain ⟨t, ht, htr, hneg⟩ := hinv s hs
+      refine ⟨t, ht, ?_⟩
+      rw [dropTR_apply, htr, h, hneg k]
+      simp [hnn]
+
 end WB.C03
